@@ -91,6 +91,14 @@ def process(ctx, r, prop, drv, rc, lines, args, mode):
             r.nontrivial(args[2] + args[3] + cl)
     if cases:
         r.sample({'config': args[1:], 'case': cases[0], 'chain': ins[0] if ins else None})
+    for il in [x for x in lines if x.startswith('INTR ')]:
+        # C02 scenario "wake-up after an interrupted wait" (restart reason abort): how many targets were
+        # interrupted inside their first wait and resumed from the second one
+        f = dict(x.split('=', 1) for x in il.split(' ')[2:] if '=' in x)
+        r.count('interrupted_in_wait', int(f.get('interrupted_in_wait', '0')))
+        r.count('resumed_after_interrupted_wait', int(f.get('resumed_after_second_wait', '0')))
+        if int(f.get('wait_returned_without_exception', '0')):
+            r.count('interrupted_wait_returned_without_exception', int(f['wait_returned_without_exception']))
     for w in [x for x in lines if x.startswith('WITNESS ')]:
         r.notes.append('%s %s workers: %s' % (args[2], args[3], w))
         r.count(w.replace(' ', '_'))
